@@ -83,13 +83,16 @@ Destutter(prev, s) ==
 (*   it stands and the callbacks collected so far are never delivered.      *)
 (* With devRaise = FALSE this is the documented (reference) semantics.      *)
 (* ------------------------------------------------------------------------ *)
-RECURSIVE TRun(_, _, _, _, _)
-TRun(devRaise, batch, i, st, cb) ==
+(* boom: tasks whose finalisation raises inside Task._update after the state  *)
+(* was set (a service task whose info cannot be reset): like devRaise the     *)
+(* batch is abandoned and the callbacks collected so far are lost.            *)
+RECURSIVE TRunB(_, _, _, _, _, _)
+TRunB(devRaise, boom, batch, i, st, cb) ==
   IF i > Len(batch) THEN [st |-> st, cb |-> cb, raised |-> FALSE]
   ELSE
     LET u   == batch[i][1]
         tg  == batch[i][2]
-        nxt == TRun(devRaise, batch, i + 1, st, cb)
+        nxt == TRunB(devRaise, boom, batch, i + 1, st, cb)
     IN
     IF u \notin DOMAIN st THEN nxt                     \* unknown task: ignored
     ELSE
@@ -100,23 +103,29 @@ TRun(devRaise, batch, i, st, cb) ==
              THEN [st |-> st, cb |-> [t \in DOMAIN cb |-> <<>>], raised |-> TRUE]
              ELSE nxt                                  \* final states are sticky
       ELSE IF Val(NT, tg) <= cur THEN nxt              \* late / out of order
-      ELSE TRun(devRaise, batch, i + 1,
-                [st EXCEPT ![u] = tg],
-                [cb EXCEPT ![u] = @ \o Passed(NT, cur, tg)])
+      ELSE IF IsFinal(NT, tg) /\ u \in boom
+           THEN [st |-> [st EXCEPT ![u] = tg], cb |-> [t \in DOMAIN cb |-> <<>>], raised |-> TRUE]
+      ELSE TRunB(devRaise, boom, batch, i + 1,
+                 [st EXCEPT ![u] = tg],
+                 [cb EXCEPT ![u] = @ \o Passed(NT, cur, tg)])
+
+TRun(devRaise, batch, i, st, cb) == TRunB(devRaise, {}, batch, i, st, cb)
 
 EmptyCb(st)   == [t \in DOMAIN st |-> <<>>]
 TRes(dev, batch, st) == TRun(dev, batch, 1, st, EmptyCb(st))
+TResB(dev, boom, batch, st) == TRunB(dev, boom, batch, 1, st, EmptyCb(st))
 
 BatchUids(batch)     == {batch[i][1] : i \in 1 .. Len(batch)}
 Without(batch, u)    == SelectSeq(batch, LAMBDA e : e[1] # u)
 
 \* BatchIsolation: for every t1 and every t2 # t1 the effect on t2 equals
 \* the effect of the batch with t1's entries removed
-Isolated(dev, batch, st) ==
+IsolatedB(dev, boom, batch, st) ==
   \A u \in BatchUids(batch) :
-    LET r1 == TRes(dev, batch, st)
-        r2 == TRes(dev, Without(batch, u), st)
+    LET r1 == TResB(dev, boom, batch, st)
+        r2 == TResB(dev, boom, Without(batch, u), st)
     IN \A t \in (DOMAIN st) \ {u} : r1.st[t] = r2.st[t] /\ r1.cb[t] = r2.cb[t]
+Isolated(dev, batch, st) == IsolatedB(dev, {}, batch, st)
 
 (* ------------------------------------------------------------------------ *)
 (* PilotManager._state_sub_cb on one batch.                                 *)
